@@ -1,5 +1,2 @@
 package main
 
-func genCli(repo string) (string, error) {
-	return "(* GENERATED placeholder *)\n", nil
-}
